@@ -35,13 +35,31 @@ type fctx struct {
 	// is not acquired by the enclosing function.
 	detached bool
 	inPrefix bool
+	// depth is the nesting depth of the current statement inside the function
+	// body (0: the top-level statement list).
+	depth   int
+	inDefer bool
+	// beginErr is the error variable of the Begin call of the previous
+	// statement, beginClass the pseudo-lock it would hold.
+	beginErr   types.Object
+	beginErrAt ast.Stmt
+	beginClass int
+	// boltRows are the acquisition rows of the pseudo-locks currently held.
+	boltRows map[int]*acqSite
+	// pendingTx is the variable the transaction being opened is assigned to.
+	pendingTx types.Object
+	// dbOwner names the database a local *bbolt.DB variable was loaded from.
+	dbOwner map[types.Object]string
+	// txClass maps a local *bbolt.Tx variable to the pseudo-lock it holds.
+	txClass map[types.Object]int
 }
 
 func (a *analysis) newCtx(fi *funcInfo, name string, pkg *packages.Package) *fctx {
 	return &fctx{
 		a: a, fi: fi, pkg: pkg, info: pkg.TypesInfo, name: name, may: map[int]bool{},
 		aliases: map[types.Object]*pathRef{}, fresh: map[types.Object]bool{}, multi: map[types.Object]int{},
-		lits: map[types.Object]*ast.FuncLit{},
+		lits: map[types.Object]*ast.FuncLit{}, dbOwner: map[types.Object]string{}, txClass: map[types.Object]int{},
+		boltRows: map[int]*acqSite{},
 	}
 }
 
@@ -203,6 +221,11 @@ func (c *fctx) block(list []ast.Stmt) (terminated bool) {
 }
 
 func (c *fctx) stmt(s ast.Stmt) (terminated bool) {
+	switch s.(type) {
+	case *ast.IfStmt, *ast.ForStmt, *ast.RangeStmt, *ast.SwitchStmt, *ast.TypeSwitchStmt, *ast.SelectStmt, *ast.BlockStmt:
+		c.depth++
+		defer func() { c.depth-- }()
+	}
 	switch s := s.(type) {
 	case nil, *ast.EmptyStmt:
 	case *ast.BlockStmt:
@@ -375,6 +398,11 @@ func (c *fctx) ifStmt(s *ast.IfStmt) (terminated bool) {
 	}
 	entry := c.snap()
 	var exits []snapshot
+	if c.beginErr != nil && isErrNotNil(c, s.Cond, c.beginErr) {
+		// Begin failed: no transaction, no lock
+		delete(c.may, c.beginClass)
+	}
+	c.beginErr = nil
 	if !c.block(s.Body.List) {
 		exits = append(exits, c.snap())
 	}
@@ -452,6 +480,21 @@ func (c *fctx) isTerminatingCall(e ast.Expr) bool {
 }
 
 func (c *fctx) assign(s *ast.AssignStmt) {
+	if len(s.Rhs) == 1 {
+		if call, ok := ast.Unparen(s.Rhs[0]).(*ast.CallExpr); ok && c.boltMethod(call) == "DB.Begin" {
+			if id, ok := s.Lhs[0].(*ast.Ident); ok {
+				if obj := c.objOf(id); obj != nil {
+					c.pendingTx = obj
+				}
+			}
+			if len(s.Lhs) == 2 {
+				if id, ok := s.Lhs[1].(*ast.Ident); ok {
+					c.beginErr = c.objOf(id)
+					c.beginErrAt = s
+				}
+			}
+		}
+	}
 	for _, r := range s.Rhs {
 		// TryLock in an assignment outside the recognised `if` shape
 		if call, ok := r.(*ast.CallExpr); ok {
@@ -481,6 +524,11 @@ func (c *fctx) noteDefine(id *ast.Ident, rhs ast.Expr) {
 		return
 	}
 	rhs = ast.Unparen(rhs)
+	if isBoltType(obj.Type(), "DB") {
+		if o := c.boltOwner(rhs); o != "" {
+			c.dbOwner[obj] = o
+		}
+	}
 	if fl, ok := rhs.(*ast.FuncLit); ok {
 		if c.multi[obj] <= 1 {
 			c.lits[obj] = fl
@@ -575,6 +623,8 @@ func (c *fctx) deferStmt(s *ast.DeferStmt) {
 
 		return
 	}
+	c.inDefer = true
+	defer func() { c.inDefer = false }()
 	for _, arg := range call.Args {
 		c.expr(arg)
 	}
@@ -597,8 +647,11 @@ func (c *fctx) runLit(fl *ast.FuncLit, outer []heldLock, may map[int]bool, top b
 	c.nlit++
 	sub := c.a.newCtx(c.fi, fmt.Sprintf("%s$%d", c.name, c.nlit), c.pkg)
 	sub.top = top
+	sub.inDefer = c.inDefer
+	sub.depth = c.depth + 1
 	sub.detached = c.detached || (outer == nil && may == nil)
-	sub.initFn = c.initFn
+	// a body that runs later or in another goroutine is not start-up code
+	sub.initFn = c.initFn && !sub.detached
 	sub.initLit = c.initLit
 	for _, l := range outer {
 		l.outer = true
@@ -616,6 +669,12 @@ func (c *fctx) runLit(fl *ast.FuncLit, outer []heldLock, may map[int]bool, top b
 	}
 	for k, v := range c.lits {
 		sub.lits[k] = v
+	}
+	for k, v := range c.dbOwner {
+		sub.dbOwner[k] = v
+	}
+	for k, v := range c.txClass {
+		sub.txClass[k] = v
 	}
 	sub.prescan(fl.Body)
 	for k, v := range c.multi {
@@ -717,6 +776,7 @@ func (c *fctx) lockOp(call *ast.CallExpr, try bool) {
 			return
 		}
 		if !try {
+			c.markNonLeaf()
 			for h := range c.may {
 				c.a.edge(h, lk.class, c.a.pos(call.Pos()))
 			}
@@ -1226,6 +1286,10 @@ func (c *fctx) call(call *ast.CallExpr) {
 			return
 		}
 	}
+	// bbolt transactions are locks, too
+	if c.boltCall(call) {
+		return
+	}
 	// accessor helpers: f(mu, &x.field, …)
 	if acc := c.accessor(call); acc != nil {
 		c.accessorCall(call, acc)
@@ -1302,6 +1366,7 @@ func (c *fctx) accessorCall(call *ast.CallExpr, acc *cfgAccessor) {
 	}
 	cl := c.a.class(last.owner+"."+last.name, rw)
 	root, base, path := c.a.rootOf(lpr)
+	c.markNonLeaf()
 	for h := range c.may {
 		c.a.edge(h, cl.id, c.a.pos(call.Pos()))
 	}
@@ -1450,14 +1515,20 @@ func (c *fctx) callTargets(call *ast.CallExpr, isGo bool, _ []*ast.FuncLit, top 
 					may = append(may, k)
 				}
 				sort.Ints(may)
-				c.a.pending = append(c.a.pending, pendingEdge{may: may, callee: t, pos: c.a.pos(call.Pos())})
+				pe := pendingEdge{may: may, callee: t, pos: c.a.pos(call.Pos())}
+				for cl, row := range c.boltRows {
+					if c.may[cl] {
+						pe.rows = append(pe.rows, row)
+					}
+				}
+				c.a.pending = append(c.a.pending, pe)
 			}
 		}
 		if c.a.funcs[t] == nil {
 			continue
 		}
-		site := &callSite{caller: c, callee: t, isGo: isGo, top: top, init: c.initFn || c.initLit, pos: c.a.pos(call.Pos())}
-		if c.fi != nil && c.a.cfg.InitFuncs[c.fi.name] != "" {
+		site := &callSite{caller: c, callee: t, isGo: isGo, top: top, init: (c.initFn || c.initLit) && !isGo, pos: c.a.pos(call.Pos())}
+		if c.fi != nil && c.a.cfg.InitFuncs[c.fi.name] != "" && !isGo && !c.detached {
 			site.init = true
 		}
 		// a method called on an object this function has just created: the
@@ -1574,5 +1645,275 @@ func (a *analysis) noteLitCallee(c *fctx, call *ast.CallExpr) {
 	}
 	if !a.collecting {
 		a.litCallees[name]++
+	}
+}
+
+// ---------------------------------------------------------------- bbolt
+
+const boltPath = "go.etcd.io/bbolt"
+
+func isBoltType(t types.Type, name string) bool {
+	n := namedOf(t)
+
+	return n != nil && n.Obj().Pkg() != nil && n.Obj().Pkg().Path() == boltPath && n.Obj().Name() == name
+}
+
+// boltMethod names a method of bbolt.DB / bbolt.Tx called here ("DB.Begin",
+// "DB.Update", "DB.Batch", "DB.View", "Tx.Commit", "Tx.Rollback"), or "".
+func (c *fctx) boltMethod(call *ast.CallExpr) string {
+	sel, ok := ast.Unparen(call.Fun).(*ast.SelectorExpr)
+	if !ok {
+		return ""
+	}
+	s := c.info.Selections[sel]
+	if s == nil || s.Kind() != types.MethodVal {
+		return ""
+	}
+	f, ok := s.Obj().(*types.Func)
+	if !ok || f.Pkg() == nil || f.Pkg().Path() != boltPath {
+		return ""
+	}
+	recv := f.Type().(*types.Signature).Recv()
+	if recv == nil {
+		return ""
+	}
+	switch {
+	case isBoltType(recv.Type(), "DB"):
+		switch f.Name() {
+		case "Begin", "Update", "Batch", "View":
+			return "DB." + f.Name()
+		}
+	case isBoltType(recv.Type(), "Tx"):
+		switch f.Name() {
+		case "Commit", "Rollback":
+			return "Tx." + f.Name()
+		}
+	}
+
+	return ""
+}
+
+// boltOwner names the database an expression of type *bbolt.DB denotes: the
+// struct field it is stored in (also through atomic.Pointer Load/Swap), or the
+// package when that cannot be told.
+func (c *fctx) boltOwner(e ast.Expr) string {
+	e = ast.Unparen(e)
+	if id, ok := e.(*ast.Ident); ok {
+		if o := c.dbOwner[c.objOf(id)]; o != "" {
+			return o
+		}
+	}
+	if call, ok := e.(*ast.CallExpr); ok {
+		if sel, ok := ast.Unparen(call.Fun).(*ast.SelectorExpr); ok {
+			if sel.Sel.Name == "Load" || sel.Sel.Name == "Swap" {
+				return c.boltOwner(sel.X)
+			}
+		}
+
+		return ""
+	}
+	if pr := c.resolve(e); pr != nil && len(pr.segs) > 0 {
+		last := pr.segs[len(pr.segs)-1]
+		if last.owner != "" {
+			return last.owner + "." + last.name
+		}
+	}
+
+	return ""
+}
+
+// boltCall handles the bbolt calls that take or release the database's
+// single-writer lock ("bolt.rwlock:<db>") or pin its memory map
+// ("bolt.mmaplock:<db>", shared for read-only transactions; a committing
+// writer that has to remap takes it exclusively).
+//
+// A read-write transaction holds bolt.rwlock from Begin(true) to
+// Commit/Rollback.  The release (tx.Commit(), tx.Rollback() or a call
+// passing the transaction to a helper) is followed as a may-analysis: at a
+// join the lock counts as held if any branch still holds it; releases inside
+// deferred calls are not followed, the lock then counts as held until the
+// function returns (more edges, never fewer).  In the branch `if err != nil`
+// right after `tx, err := db.Begin(true)` the lock is not held.
+func (c *fctx) boltCall(call *ast.CallExpr) bool {
+	m := c.boltMethod(call)
+	if m == "" {
+		// a helper finishing the transaction: f(tx, …)
+		if !c.inDefer {
+			for _, arg := range call.Args {
+				if id, ok := ast.Unparen(arg).(*ast.Ident); ok {
+					if cl, held := c.txClass[c.objOf(id)]; held && isBoltType(c.objOf(id).Type(), "Tx") {
+						delete(c.may, cl)
+						delete(c.boltRows, cl)
+					}
+				}
+			}
+		}
+
+		return false
+	}
+	sel := ast.Unparen(call.Fun).(*ast.SelectorExpr)
+	switch m {
+	case "Tx.Commit", "Tx.Rollback":
+		if id, ok := ast.Unparen(sel.X).(*ast.Ident); ok && !c.inDefer {
+			if cl, held := c.txClass[c.objOf(id)]; held {
+				delete(c.may, cl)
+				delete(c.boltRows, cl)
+			}
+		}
+
+		return true
+	}
+	owner := c.boltOwner(sel.X)
+	if owner == "" {
+		owner = "pkg " + shortPkg(c.pkg.PkgPath)
+	}
+	c.expr(sel.X)
+	write := true
+	switch m {
+	case "DB.Begin":
+		if len(call.Args) == 1 {
+			if tv, ok := c.info.Types[call.Args[0]]; ok && tv.Value != nil && tv.Value.String() == "false" {
+				write = false
+			}
+		}
+	case "DB.View":
+		write = false
+	}
+	rw := c.a.class("bolt.rwlock:"+owner, false)
+	mm := c.a.class("bolt.mmaplock:"+owner, true)
+	acquire := func(cl *lockClass, excl bool) {
+		gate := c.a.gateOf(cl.name)
+		exempt := false
+		if gate != "" {
+			row := &acqSite{fn: c.name, class: cl.id, pos: c.a.pos(call.Pos()), top: c.top, init: c.initFn}
+			for _, l := range c.must {
+				if l.excl {
+					row.excl = append(row.excl, l.class)
+				} else {
+					row.shared = append(row.shared, l.class)
+				}
+				if c.a.classByID(l.class) == gate && l.excl {
+					exempt = true
+				}
+			}
+			if !c.a.collecting {
+				c.a.acqSites = append(c.a.acqSites, row)
+			}
+			c.boltRows[cl.id] = row
+		}
+		c.markNonLeaf()
+		if !exempt {
+			for h := range c.may {
+				c.a.edge(h, cl.id, c.a.pos(call.Pos()))
+			}
+			if !c.detached {
+				c.a.noteDirect(c.fi.obj, cl.id)
+			}
+		} else if !c.a.collecting {
+			c.a.exemptAcqs[c.a.pos(call.Pos())+" "+cl.name+" in "+c.name] = true
+		}
+		_ = excl
+	}
+	if write {
+		acquire(rw, true)
+	} else {
+		acquire(mm, false)
+	}
+	switch m {
+	case "DB.Begin":
+		if write {
+			c.may[rw.id] = true
+			c.beginClass = rw.id
+			if c.pendingTx != nil {
+				c.txClass[c.pendingTx] = rw.id
+			}
+			// a commit that has to grow the file remaps: bolt.rwlock -> bolt.mmaplock
+			c.a.edge(rw.id, mm.id, c.a.pos(call.Pos())+" (commit remaps)")
+		} else {
+			c.may[mm.id] = true
+			c.beginClass = mm.id
+			if c.pendingTx != nil {
+				c.txClass[c.pendingTx] = mm.id
+			}
+		}
+		c.pendingTx = nil
+	default:
+		// Update/Batch/View: the callback runs inside the transaction
+		cl := rw
+		if !write {
+			cl = mm
+		} else {
+			c.a.edge(rw.id, mm.id, c.a.pos(call.Pos())+" (commit remaps)")
+		}
+		had := c.may[cl.id]
+		c.may[cl.id] = true
+		for _, arg := range call.Args {
+			if fl, ok := ast.Unparen(arg).(*ast.FuncLit); ok {
+				c.runLit(fl, c.must, c.may, c.top)
+			} else {
+				c.expr(arg)
+				c.callTargetsOfValue(arg)
+			}
+		}
+		if !had {
+			delete(c.may, cl.id)
+		}
+	}
+
+	return true
+}
+
+// callTargetsOfValue records a call of a declared function passed as a value
+// to a callee that runs it synchronously (db.Update(s.fn)).
+func (c *fctx) callTargetsOfValue(arg ast.Expr) {
+	var f *types.Func
+	switch a := ast.Unparen(arg).(type) {
+	case *ast.Ident:
+		f, _ = c.info.Uses[a].(*types.Func)
+	case *ast.SelectorExpr:
+		if s := c.info.Selections[a]; s != nil && s.Kind() == types.MethodVal {
+			f, _ = s.Obj().(*types.Func)
+		} else {
+			f, _ = c.info.Uses[a.Sel].(*types.Func)
+		}
+	}
+	if f == nil || c.fi == nil || c.detached {
+		return
+	}
+	if c.a.callG[c.fi.obj] == nil {
+		c.a.callG[c.fi.obj] = map[*types.Func]bool{}
+	}
+	c.a.callG[c.fi.obj][f.Origin()] = true
+	if len(c.may) > 0 {
+		may := make([]int, 0, len(c.may))
+		for k := range c.may {
+			may = append(may, k)
+		}
+		sort.Ints(may)
+		c.a.pending = append(c.a.pending, pendingEdge{may: may, callee: f.Origin(), pos: c.a.pos(arg.Pos())})
+	}
+}
+
+func isErrNotNil(c *fctx, cond ast.Expr, errObj types.Object) bool {
+	b, ok := ast.Unparen(cond).(*ast.BinaryExpr)
+	if !ok || b.Op != token.NEQ {
+		return false
+	}
+	id, ok := ast.Unparen(b.X).(*ast.Ident)
+	if !ok || c.objOf(id) != errObj {
+		return false
+	}
+	n, ok := ast.Unparen(b.Y).(*ast.Ident)
+
+	return ok && n.Name == "nil"
+}
+
+// markNonLeaf notes that something is acquired while the pseudo-locks in the
+// may set are held.
+func (c *fctx) markNonLeaf() {
+	for cl, row := range c.boltRows {
+		if c.may[cl] {
+			row.nonLeaf = true
+		}
 	}
 }
